@@ -33,10 +33,12 @@ func parseSparseShares(shares []Share) (blobs []*Blob, err error) {
 		}
 
 		if share.IsSequenceStart() {
+			// copy the payload: appending to a sub-slice of the share would
+			// write into the memory that follows it
 			sequences = append(sequences, sequence{
 				ns:           share.Namespace(),
 				shareVersion: version,
-				data:         share.RawData(),
+				data:         append([]byte(nil), share.RawData()...),
 				sequenceLen:  share.SequenceLen(),
 				signer:       GetSigner(share),
 			})
